@@ -78,4 +78,19 @@ Proof.
     apply (IH (upd_nth j sj' ss) i s). rewrite (nth_upd_other j i sj' Hne). exact Hi.
 Qed.
 
+(* two schedules that hand every connection the same operations in the same order - however differently they interleave
+   the connections - show every connection the same observations *)
+Corollary schedule_irrelevant sched1 sched2 ss i s :
+  nth_error ss i = Some s -> ops_of i sched1 = ops_of i sched2 ->
+  proj i (irun ss sched1) = proj i (irun ss sched2).
+Proof.
+  intros Hi Hops. rewrite (interleaving_independent sched1 ss i s Hi), (interleaving_independent sched2 ss i s Hi), Hops.
+  reflexivity.
+Qed.
+
+(* operations addressed to a connection that does not exist are observed by nobody *)
+Lemma absent_connection_silent sched : forall ss j,
+  nth_error ss j = None -> forall o, irun ss ((j, o) :: sched) = irun ss sched.
+Proof. intros ss j Hj o. cbn [irun]. rewrite Hj. reflexivity. Qed.
+
 End Interleave.
